@@ -418,6 +418,38 @@ def raster(ctx, col):
                                 f"an axis gets another axis' value, which differs as soon as the resolution is anisotropic in those axes", stmt="r:axis-mix", definite=True)
 
 
+def _chan_axis(ctx, col):
+    """R-CHANAXIS: in save_tiff the number of channels (`data.shape[-1]`) is read only after a 3-D input has been given its channel axis (CFG dominance)."""
+    from .. import cfg as cfgmod
+    repo = ctx.repo
+    col.rule("R-CHANAXIS", "save_tiff reads the number of channels (`data.shape[-1]`) only after a channel-less (X, Y, Z) input has been given its channel axis: the statement that adds the "
+             "axis dominates every such read on the CFG (read earlier, a gray stack with three slices is tagged RGB)", floor=1)
+    d = repo.get_def(f"{IO}.save_tiff")
+    g = cfgmod.build(d)
+    adds = [n for n in own_nodes(d) if isinstance(n, ast.If) and "ndim" in norm_src(n.test) and any(isinstance(c, ast.Call) and (dotted(c.func) or "").rsplit(".", 1)[-1] in ("expand_dims", "reshape", "atleast_3d")
+                                                                                                   or isinstance(c, ast.Subscript) and "None" in norm_src(c.slice) or "newaxis" in norm_src(c) for c in ast.walk(n))]
+    if len(adds) != 1 or g.node_of(adds[0]) is None:
+        col.unresolved("R-CHANAXIS", d.qualname, d.loc(), "the channel count is read after the channel axis exists", "no single `if data.ndim == 3: <add axis>` statement found", stmt="chanaxis")
+        return
+    anchor = g.node_of(adds[0])
+    from ..rules.sortedness import _stmt_of
+    n = 0
+    for e in own_nodes(d):
+        if isinstance(e, ast.Subscript) and isinstance(e.value, ast.Attribute) and e.value.attr == "shape" and norm_src(e.slice) in ("-1", "3") and any(x is e for x in ast.walk(d.node)):
+            if any(x is e for x in ast.walk(adds[0])):
+                continue
+            st = _stmt_of(d, e)
+            node = g.node_of(st) if st is not None else None
+            if node is None:
+                continue
+            n += 1
+            col.check(g.dominates(anchor, node), "R-CHANAXIS", d.qualname, d.loc(e), "the channel count is read after the channel axis exists", norm_src(st)[:70],
+                      f"`{norm_src(st)[:80]}` reads `{norm_src(e)}` on a path that has not yet passed `{norm_src(adds[0].test)}`: for a 3-D (X, Y, Z) input the last axis is still Z there, so a gray "
+                      f"stack with exactly three slices is taken for RGB (tifffile then refuses to write it)", stmt=f"chanaxis:{norm_src(st)[:24]}", definite=True)
+    if not n:
+        col.unresolved("R-CHANAXIS", d.qualname, d.loc(), "the channel count is read after the channel axis exists", "no read of the last axis length found", stmt="chanaxis")
+
+
 def dispatch(ctx, col):
     """read_imgs: the reader is chosen by the file extension, the requested dtype reaches it."""
     repo = ctx.repo
@@ -430,6 +462,7 @@ def dispatch(ctx, col):
           "    case '.v3dpbd':\n        return V3dpbdImageStack(fname, **kwargs)\n    case '.v3draw':\n        return V3drawImageStack(fname, **kwargs)\n"
           "    case '.npy':\n        return NDArrayImageStack(np.load(fname), **kwargs)"], "rd:match"),
         ("anything else is rejected", ["raise ValueError('unsupported image stack')"], "rd:else")], fixed=("fname", "kwargs"))
+    col.guard(_chan_axis, ctx, col)
     from ..rules import outarg as _outarg
     _outarg.run(ctx, col, ('swcgeom.images.io', 'swcgeom.images.augmentation', 'swcgeom.images.folder', 'swcgeom.transforms.image_stack', 'swcgeom.transforms.images'))
     # sibling agreement: every reader the dispatcher can return receives the requested dtype
